@@ -63,6 +63,8 @@ pub fn start_server(server_bin: &str, sc: &Value, workdir: &str) -> Result<Serve
     let stderr = std::fs::File::create(format!("{}/stderr.txt", dir)).map_err(|e| e.to_string())?;
     let stdout = std::fs::File::create(format!("{}/stdout.txt", dir)).map_err(|e| e.to_string())?;
     cmd.env("ROUGHENOUGH_VERIF_TRACE", format!("{}/trace", dir)).env("RUST_BACKTRACE", "0").stdin(Stdio::null()).stdout(stdout).stderr(stderr);
+    // schedule exploration: sleep after named hook events ("r_received:1300,w_lock:50")
+    if let Some(d) = sc["delays"].as_str() { cmd.env("ROUGHENOUGH_VERIF_DELAY", d); }
     let child = cmd.spawn().map_err(|e| format!("spawn server: {}", e))?;
     let n_workers = sc["num_workers"].as_u64().map(|n| n as usize).unwrap_or_else(|| std::thread::available_parallelism().map(|n| n.get()).unwrap_or(1));
     Ok(ServerProc { child, port, hc_port, dir, n_workers, started: Instant::now(), seed: unhex(&seed_hex) })
@@ -286,7 +288,7 @@ impl SrvTrace {
 // ---------------------------------------------------------------------------- scenario runner
 
 fn proc_level(l: &Value) -> bool {
-    matches!(l["ev"].as_str().unwrap_or(""), "m_start" | "m_spawn" | "m_spawned_all" | "m_join_begin" | "m_joined" | "m_exit" | "w_start" | "w_lock" | "w_ready" | "w_unlock" | "w_exit" | "sig" | "panic")
+    matches!(l["ev"].as_str().unwrap_or(""), "m_start" | "m_spawn" | "m_spawned_all" | "m_join_begin" | "m_joined" | "m_exit" | "w_start" | "w_lock" | "w_ready" | "w_unlock" | "w_exit" | "sig" | "panic" | "r_pass" | "r_received" | "r_reported" | "r_exit")
 }
 
 pub fn run_scenarios(path: &str, out_prefix: &str, server_bin: &str, workdir: &str, seed: u64) {
